@@ -155,6 +155,10 @@ def model_call(names, spec, counter):
         if name == "insert_many":
             return [0, [6, b, evs]]
         return [1, b, evs, spec[3]]              # the row after the spec[3] good ones overflows
+    if name == "insert_many_badup":              # the id-carrying event number spec[3] overflows: the model's call lists the others
+        evs = [ev_wire(nxt + j, eid=i) for j, i in enumerate(spec[2]) if j != spec[3]]
+        evs += [ev_wire(nxt + len(spec[2]) + j) for j in range(spec[4])]
+        return [2, b, evs, spec[3]]
     if name == "replace":
         return [0, [7, b, spec[2], ev_wire(nxt)]]
     if name == "replace_last":
@@ -265,12 +269,8 @@ def run(ck, sq, Event, histories, replay_obj, quick):
     if not ok2:
         ck.broken.append("state model no longer extracts/compiles: " + out[-300:])
         return
-    # an insert_many whose upsert loop raises (insert_many_badup) is an op of the token model only
-    # (Commit.InsertManyFailed ups [] rest): Model/CrashStore.v has the bind-time overflow for id-less rows only
-    skipped = [h for h in histories if any(st[2][0] == "insert_many_badup" for st in h[2])]
-    if skipped:
-        ck.count("state:histories-with-a-failing-upsert-left-to-the-token-model", len(skipped))
-        histories = [h for h in histories if h not in skipped]
+    # an insert_many whose upsert loop raises (insert_many_badup) is Model/CrashStore.v's UpsertOverflow
+    ck.count("state:histories-with-a-failing-upsert", sum(1 for h in histories if any(st[2][0] == "insert_many_badup" for st in h[2])))
     limit = len(histories) if quick else 170 + 400       # thorough: the corpus and the first 400 random histories
     if len(histories) > limit:
         ck.count("state:histories-not-replayed-in-this-stream", len(histories) - limit)
